@@ -329,8 +329,26 @@ theorem covO_dropQueued : ∀ (d : List Tx) (s : Pool) (P : Priced) (a : Addr) (
 
 /-! ### the concrete machine refines the oracle machine and keeps the heap consistent -/
 
-/-- `priced_consistent`: every pooled transaction has an entry in the price heap -/
-def Cov (c : CPool) : Prop := ∀ x ∈ c.pool.all, x ∈ c.priced.items
+theorem ledger_step_ok (L : Ledger) (e : LEv) (h : PricedOK true L.priced) : PricedOK true (L.step e).priced := by
+  cases e with
+  | insPut t => exact put_ok _ t h
+  | insIfNew t =>
+    unfold Ledger.step
+    simp only
+    split
+    · exact h
+    · exact put_ok _ t h
+  | del t => exact removed_ok _ _ h
+
+theorem ledger_run_ok : ∀ (evs : List LEv) (L : Ledger), PricedOK true L.priced → PricedOK true (L.run evs).priced := by
+  intro evs
+  induction evs with
+  | nil => intro L h; exact h
+  | cons e rest ih => intro L h; exact ih (L.step e) (ledger_step_ok L e h)
+
+/-- `priced_consistent`: every pooled transaction has an entry in the price heap, the heap array is a min-heap by price,
+    and the driver's assertion on the heap operations has not fired -/
+def Cov (c : CPool) : Prop := (∀ x ∈ c.pool.all, x ∈ c.priced.items) ∧ PricedOK true c.priced
 
 theorem covO_nil_run {L : Ledger} (h : CovO L []) (evs : List LEv) : CovO (L.run evs) [] := by
   have := covO_run evs L [] h
@@ -338,9 +356,9 @@ theorem covO_nil_run {L : Ledger} (h : CovO L []) (evs : List LEv) : CovO (L.run
 
 theorem with_cov {c : CPool} {s' : Pool} {evs : List LEv} (h : Cov c) (hall : allRun c.pool.all evs = s'.all) :
     Cov (c.with s' evs) := by
-  have h0 : CovO c.ledger [] := fun x hx _ => h x hx
+  have h0 : CovO c.ledger [] := fun x hx _ => h.1 x hx
   have h1 := covO_nil_run h0 evs
-  intro x hx
+  refine ⟨fun x hx => ?_, ledger_run_ok evs c.ledger h.2⟩
   have hx' : x ∈ (c.ledger.run evs).all := by rw [ledger_run_all]; show x ∈ allRun c.pool.all evs; rw [hall]; exact hx
   exact h1 x hx' (by simp)
 
@@ -368,30 +386,30 @@ theorem cadd_refines (c : CPool) (t : Tx) (loc : Bool) (sh : Shape) (h : Cov c) 
       by_cases hfull : c.pool.cfg.globalSlots + c.pool.cfg.globalQueue ≤ c.pool.all.length
       · rw [if_pos hfull]
         have hfd : decide (c.pool.cfg.globalSlots + c.pool.cfg.globalQueue ≤ c.pool.all.length) = true := by simpa using hfull
-        obtain ⟨hu1, hu2⟩ := underpriced_refines c.pool c.priced t h
+        obtain ⟨hu1, hu2, hu3⟩ := underpriced_refines c.pool c.priced t h.1 h.2
         rw [hfd]
         simp only [Bool.true_and, if_true]
         by_cases hup : (c.priced.underpriced c.pool.all c.pool.locals t).1 = true
         · rw [if_pos hup]
           rw [hu1] at hup
           rw [if_pos hup]
-          exact ⟨rfl, rfl, rfl, hu2⟩
+          exact ⟨rfl, rfl, rfl, hu2, hu3⟩
         · rw [if_neg hup]
           rw [hu1] at hup
           rw [if_neg hup]
           have hd := discard_refines c.pool (c.priced.underpriced c.pool.all c.pool.locals t).2
-            (c.pool.all.length + 1 - (c.pool.cfg.globalSlots + c.pool.cfg.globalQueue)) hu2
+            (c.pool.all.length + 1 - (c.pool.cfg.globalSlots + c.pool.cfg.globalQueue)) hu2 hu3
           simp only at hd
-          obtain ⟨_, _, hsan, _, hcovd⟩ := hd
+          obtain ⟨_, _, hsan, _, hcovd, hokd⟩ := hd
           rw [hsan]
           refine ⟨rfl, rfl, rfl, ?_⟩
           -- coverage: the victims are owed until their removeTx has run
           generalize (c.priced.underpriced c.pool.all c.pool.locals t).2.discard c.pool.all c.pool.locals
-            (c.pool.all.length + 1 - (c.pool.cfg.globalSlots + c.pool.cfg.globalQueue)) = d at hcovd ⊢
+            (c.pool.all.length + 1 - (c.pool.cfg.globalSlots + c.pool.cfg.globalQueue)) = d at hcovd hokd ⊢
           have h0 : CovO ⟨c.pool.all, d.2⟩ (d.1 ++ []) := fun x hx hn => hcovd x hx (by simpa using hn)
           have h1 := covO_dropQueued d.1 c.pool d.2 0 [] h0
           have hc1 : Cov ((⟨c.pool, d.2⟩ : CPool).with (d.1.foldl (fun s v => s.removeTx v) c.pool) (evDropQueued c.pool d.1)) := by
-            intro x hx
+            refine ⟨fun x hx => ?_, ledger_run_ok _ _ hokd⟩
             have hx' : x ∈ ((⟨c.pool.all, d.2⟩ : Ledger).run (evDropQueued c.pool d.1)).all := by
               rw [ledger_run_all]; show x ∈ allRun c.pool.all _; rw [all_dropQueued c.pool 0 d.1]; exact hx
             exact h1 x hx' (by simp)
@@ -495,12 +513,12 @@ theorem csetGasPrice_refines (c : CPool) (p : Nat) (h : Cov c) :
     (c.setGasPrice p).2.pool = c.pool.setGasPriceO p (c.setGasPrice p).1 ∧
     (∀ v, v ∈ (c.setGasPrice p).1 ↔ v ∈ c.pool.all ∧ v.price < p ∧ v.sender ∉ c.pool.locals) ∧
     Cov (c.setGasPrice p).2 := by
-  have hd := cap_refines ({ c.pool with gasPrice := p } : Pool) c.priced p h
+  have hd := cap_refines ({ c.pool with gasPrice := p } : Pool) c.priced p h.1 h.2
   simp only at hd
   unfold CPool.setGasPrice Pool.setGasPriceO
   simp only
   generalize c.priced.cap c.pool.all c.pool.locals p = d at hd ⊢
-  obtain ⟨hmem, hcov⟩ := hd
+  obtain ⟨hmem, hcov, hokd⟩ := hd
   have hfil : d.1.filter (fun t => decide (t ∈ c.pool.all) && decide (t.price < p) &&
       !({ c.pool with gasPrice := p } : Pool).isLocal t.sender) = d.1 := by
     rw [List.filter_eq_self]
@@ -511,7 +529,7 @@ theorem csetGasPrice_refines (c : CPool) (p : Nat) (h : Cov c) :
   · rw [hfil]; rfl
   · have h0 : CovO ⟨c.pool.all, d.2⟩ (d.1 ++ []) := fun x hx hn => hcov x hx (by simpa using hn)
     have h1 := covO_dropQueued d.1 ({ c.pool with gasPrice := p } : Pool) d.2 0 [] h0
-    intro x hx
+    refine ⟨fun x hx => ?_, ledger_run_ok _ _ hokd⟩
     have hx' : x ∈ ((⟨c.pool.all, d.2⟩ : Ledger).run (evDropQueued ({ c.pool with gasPrice := p } : Pool) d.1)).all := by
       rw [ledger_run_all]
       show x ∈ allRun ({ c.pool with gasPrice := p } : Pool).all _
@@ -539,10 +557,10 @@ theorem creset_refines (c : CPool) (v : View) (o n : Nat) (rg : Bool) (d i : Lis
       with_cov hc1 (all_demoteUnexecutables c1.pool)
     have hc3 : Cov (⟨(c1.with (c1.pool.demoteUnexecutables true) (evDemoteUnexecutables c1.pool)).pool.syncNonces,
         (c1.with (c1.pool.demoteUnexecutables true) (evDemoteUnexecutables c1.pool)).priced⟩ : CPool) := by
-      intro x hx
+      refine ⟨fun x hx => ?_, hc2.2⟩
       have hx' : x ∈ (c1.pool.demoteUnexecutables true).syncNonces.all := hx
       rw [(syncNonces_all _).1] at hx'
-      exact hc2 x hx'
+      exact hc2.1 x hx'
     exact ⟨rfl, (cpromote_spec _ none sl2 qo2 hc3).2⟩
   by_cases he : reinject.isEmpty = true
   · rw [if_pos he, if_pos he]
@@ -576,7 +594,9 @@ theorem cstep_refines (c : CPool) (op : COp) (h : Cov c) :
   | evictIdle a => exact cevictIdle_refines c a h
 
 theorem cinit_cov (cfg : Cfg) (v : View) : Cov (CPool.init cfg v) := by
-  intro x hx; cases hx
+  refine ⟨fun x hx => ?_, ?_, fun _ => rfl⟩
+  · cases hx
+  · exact isHeap_nil
 
 /-- the concrete machine run over a list of operations: the operations of the oracle machine it amounts to, and the state -/
 def CPool.runOps : CPool → List COp → List Op × CPool
